@@ -8,6 +8,7 @@ mod node;
 mod rng;
 mod t1;
 mod t15;
+mod t16;
 mod t17;
 mod t19;
 mod t3;
